@@ -11,6 +11,8 @@ import (
 	"time"
 
 	"github.com/robertkrimen/otto/parser"
+
+	"verif/lib/m04"
 )
 
 // Development aid (skipped in normal runs): VERIF_DEV=parse VERIF_DEV_IN=<file with one source per line>
@@ -119,5 +121,26 @@ func TestDevMem(t *testing.T) {
 			runtime.ReadMemStats(&m1)
 			fmt.Printf("mode=%d n=%d %v alloc=%dMB err=%v panic=%q\n", mode, n, d, (m1.TotalAlloc-m0.TotalAlloc)>>20, r.err != nil, r.panic)
 		}
+	}
+}
+
+// VERIF_DEV=regex: which generated invalid regular expression bodies does the parser accept?
+func TestDevRegex(t *testing.T) {
+	if os.Getenv("VERIF_DEV") != "regex" {
+		t.Skip("dev aid")
+	}
+	acc := map[string][]string{}
+	for seed := 0; seed < 6000; seed++ {
+		body, _, defect := m04.NestedBadRegex(seed)
+		if r := parse("x = /"+body+"/;", 0); r.err == nil && r.panic == "" {
+			if len(acc[defect]) < 3 {
+				acc[defect] = append(acc[defect], body)
+			}
+		} else if r.panic != "" {
+			fmt.Printf("PANIC %q: %s\n", body, r.panic)
+		}
+	}
+	for d, b := range acc {
+		fmt.Printf("ACCEPTED defect %q e.g. %q\n", d, b)
 	}
 }
